@@ -28,6 +28,14 @@ fn path_set(phys: &VfsPath) -> Vec<String> {
             if !shorter.ends_with('/') && !shorter.is_empty() {
                 all.insert(shorter);
             }
+            // the same name with a foreign separator, a space or a multi-byte character in place of
+            // a `/` (one component instead of two)
+            if p.matches('/').count() >= 2 {
+                let i = p.rfind('/').unwrap();
+                for sep in ["\\", " ", "é", ":"] {
+                    all.insert(format!("{}{}{}", &p[..i], sep, &p[i + 1..]));
+                }
+            }
             all.insert(format!("{}/zz", par));
             all.insert(format!("{}/{}~", par, name_of(p)));
         }
